@@ -79,7 +79,34 @@ impl HtmlBodyVisitor {
     }
 }
 
+// The selector parser recurses once per nested `:not(`, `:is(`, ...: a few hundred levels overflow the stack
+const MAX_SELECTOR_DEPTH: usize = 32;
+
+fn selector_depth(expression: &str) -> usize {
+    let mut depth: usize = 0;
+    let mut max_depth = 0;
+
+    for char in expression.chars() {
+        match char {
+            '(' => {
+                depth += 1;
+                max_depth = max_depth.max(depth);
+            }
+            ')' => depth = depth.saturating_sub(1),
+            _ => (),
+        }
+    }
+
+    max_depth
+}
+
 pub fn evaluate(data: &str, expression: &str) -> bool {
+    if selector_depth(expression) > MAX_SELECTOR_DEPTH {
+        log::error!("cannot parse selector {}: too many nested parentheses", expression);
+
+        return false;
+    }
+
     let selector = match scraper::Selector::parse(expression) {
         Ok(selector) => selector,
         Err(err) => {
